@@ -27,6 +27,7 @@ CLAIMED = {
  "C14": func("all signed division flavours (truncating, flooring, normalized remainder; signed and unsigned divisors; ct and vartime; equal and mixed widths; operators, assigning forms, Wrapping, DivVartime, CheckedDiv) over the sign x exactness grid incl. |n|<|d|, d=+-1, n=MIN, d=MIN, MIN/-1 and zero divisors: quotient and remainder against BigInt truncated/floored division, and n = q*d + r, |r| < |d| and the remainder sign convention recomputed from the RETURNED values; none / documented panic exactly for d = 0 and MIN / -1.", "DESIGN.md §4 C14"),
  "C20": func("sqrt / sqrt_vartime / wrapping_sqrt(_vartime) / checked_sqrt(_vartime) / SquareRoot on Uint (1,2,3,4,8,16 limbs) and BoxedUint (1..=20 limbs): s^2 <= x < (s+1)^2 against BigUint, checked forms some iff perfect square, result precision; inputs t^2-1, t^2, t^2+1 for structured t, every 2^k and 2^k+-1, MAX, odd bit lengths near the precision and a Newton worst-case search guided by an oracle-side model of the iteration.", "DESIGN.md §4 C20"),
  "C16": func("byte/hex/array/word/limb/serde/fmt encodings of Uint (1..8,16,32 limbs), Int, Limb and BoxedUint against the positional definition with asymmetric contents; hostile hex (every byte value 0x00..0xff at every position, multi-byte UTF-8, wrong lengths) with documented panic / none exactly for malformed input; BoxedUint byte decoders for every bits_precision 0..=520 x every length 0..=cap+9 with values just below / at / above 2^precision (InputSize / Precision errors exactly as documented); primitive, concat/split, resize, widen/shorten conversions.", "DESIGN.md §4 C16"),
+ "C17": func("to_string_radix_vartime / from_str_radix_vartime / from_str_radix_with_precision_vartime / num_traits::Num::from_str_radix for every radix 2..=36 on Uint (1,2,3,4,8,16,40 limbs) and BoxedUint (1..=140 limbs, across the 32-limb recursion and the 128-limb buffer): canonical lowercase output against BigUint, exact parse of plain and decorated numerals, numerals at and above 2^BITS must yield the size/precision error (never a wrapped value), non-numerals (empty, lone '+', misplaced underscores, digits >= radix, arbitrary bytes) the empty/invalid-digit error, never a panic; parsed boxed values must be usable (bits, re-format).", "DESIGN.md §4 C17"),
 }
 
 checks = []
